@@ -13,7 +13,7 @@ import sys
 import time
 import traceback
 
-from .loop import CLOCK, EPOCH, SimLoop, StepLimit
+from .loop import CLOCK, EPOCH, SimLoop, StepLimit, WALL
 from .orderedset import OrderedSet
 
 
@@ -83,7 +83,8 @@ def bootstrap(seed, loop_cfg=None, permute_sets=False):
   SimLoop.CONFIG = cfg
   CLOCK.now = EPOCH
   gconfig.loop = SimLoop
-  time.time = CLOCK.time
+  WALL.offset = 0.0
+  time.time = WALL.time
   time.monotonic = CLOCK.time
   time.perf_counter = CLOCK.time
   random.seed('lib/%s' % seed)
